@@ -817,6 +817,10 @@ def _depends_on_call(fnode, expr, recv, methods, depth=0):
                 isinstance(x.func.value, ast.Name) and \
                 x.func.value.id == recv:
             return True
+        # the value of an inlined private helper (loader normalisation)
+        if getattr(x, "_inlined_from", None) in [
+                "%s.%s" % (recv, m_) for m_ in methods]:
+            return True
     for x in ast.walk(expr):
         if isinstance(x, ast.Name):
             r = _resolve_local(fnode, x)
